@@ -156,7 +156,7 @@ func (w *World) doStake(in Intent) {
 
 // MutationFields lists, per event type, the fields the property C14 names.
 var MutationFields = map[string][]string{
-	"TransferToChainEvent":      {"coin", "amount", "amount_hi64", "fee", "fee_hi64", "fee_neg", "sender", "sender_0X", "receiver", "receiver_bare", "dest_chain", "height", "height_hi", "tx_hash", "type", "shift_coin_amount", "shift_dec_first", "shift_dec_last", "shift_amount_fee"},
+	"TransferToChainEvent":      {"coin", "amount", "amount_hi64", "fee", "fee_hi64", "fee_neg", "sender", "sender_0X", "receiver", "receiver_bare", "dest_chain", "dest_chain_pad", "height", "height_hi", "tx_hash", "type", "shift_coin_amount", "shift_dec_first", "shift_dec_last", "shift_amount_fee"},
 	"SendToHubEvent":            {"coin", "amount", "amount_hi64", "sender", "receiver", "height", "height_hi", "tx_hash", "type", "shift_coin_amount", "shift_dec_first", "shift_dec_last"},
 	"BatchExecutedEvent":        {"coin", "batch_nonce", "batch_nonce_hi", "height", "height_hi", "tx_hash", "fee_paid", "fee_paid_hi64", "fee_paid_neg", "fee_payer", "type"},
 	"SignerSetTxExecutedEvent":  {"set_nonce", "set_nonce_hi", "height", "height_hi", "tx_hash", "member_addr", "member_last_addr", "member_zero", "member_power", "member_power_hi", "type"},
@@ -229,6 +229,10 @@ func (w *World) Mutate(chain string, ev mhub2types.ExternalEvent, mut string) mh
 				return nil
 			}
 			c.Sender = "0X" + c.Sender[2:]
+		case "dest_chain_pad":
+			// the contract passes the destination as bytes32: an orchestrator that does not trim the padding reports
+			// "bsc\x00\x00..." - not a chain the hub knows, so the transfer takes another path than for "bsc"
+			c.ReceiverChainId = c.ReceiverChainId + "\x00\x00"
 		case "dest_chain":
 			for _, ch := range []string{"hub", "ethereum", "bsc", "minter"} {
 				if ch != c.ReceiverChainId && ch != chain {
